@@ -153,8 +153,9 @@ def gen_case(rng, tier, k):
     # the module population
     mods = {}      # id -> ir
     kinds = {}
+    late_files = {}
     pool = ["good", "good", "dep", "failing", "faildep", "broken", "missdep",
-            "cyc2", "cyc3", "good", "truncated"]
+            "cyc2", "cyc3", "good", "truncated", "runscript", "badutf8"]
     rng.shuffle(pool)
     nk = rng.randrange(3, 7)
     n = 0
@@ -194,6 +195,23 @@ def gen_case(rng, tier, k):
                 "print('LOAD " + mid + "|');\ndef val = [1, 2,\n",
                 "def val = (1 +\n"])]]
             kinds[mid] = "truncated"
+        elif kind == "badutf8":
+            mid = f"mu{n}"
+            mods[mid] = [["latin1", "print('LOAD " + mid + "|');\n"
+                          "def val = 'gr\u00fc\u00dfe';\n"]]
+            kinds[mid] = "badutf8"
+        elif kind == "runscript":
+            # the module's top level runs a script file, and that script
+            # requires the module that is still being loaded: a cycle that
+            # passes through the script runner
+            mid = f"mr{n}"
+            ir = g.module_ir(mid)
+            ir.insert(2, ["runf", f"/sim/scripts/back_{mid}.ckl"])
+            mods[mid] = ir
+            kinds[mid] = "runscript"
+            late_files[f"/sim/scripts/back_{mid}.ckl"] = {"ir": [
+                ["mark", "SCRIPT back " + mid],
+                ["req", "plain", {"id": mid}, None]]}
         elif kind == "missdep":
             mid = f"mm{n}"
             mods[mid] = g.module_ir(mid, deps=[f"nosuch{n}"])
@@ -209,6 +227,13 @@ def gen_case(rng, tier, k):
             mods[b] = g.module_ir(b, deps=[c])
             mods[c] = g.module_ir(c, deps=[a])
             kinds[a] = kinds[b] = kinds[c] = "cyc"
+    for mu in [x for x in mods if kinds.get(x) == "badutf8"]:
+        # a module that guards its require of the undecodable one
+        mods["mw" + mu] = g.module_ir("mw" + mu) + [
+            ["blk", [["req", "plain", {"id": mu}, None],
+                     ["mark", "DEP-OK " + mu]],
+             [[None, [["mark", "DEP-FAILED " + mu]]]], None]]
+        kinds["mw" + mu] = "good"
     mods["zs"] = g.module_ir("zs")
     kinds["zs"] = "sentinel"
     missing = [f"gone{i}" for i in range(2)]
@@ -222,7 +247,9 @@ def gen_case(rng, tier, k):
                 # the shadowed copy is different: must never be the one used
                 ir2 = [["mark", "LOAD-SHADOW " + mid],
                        ["def", "val", -1], ["def", "shadow", 1]]
-            if len(ir2) == 1 and ir2[0][0] == "raw":
+            if len(ir2) == 1 and ir2[0][0] == "latin1":
+                files[f"{d}/{mid}.ckl"] = {"latin1": ir2[0][1]}
+            elif len(ir2) == 1 and ir2[0][0] == "raw":
                 # written verbatim: the file really ends in mid-statement
                 files[f"{d}/{mid}.ckl"] = {"raw": ir2[0][1]}
             else:
@@ -232,6 +259,7 @@ def gen_case(rng, tier, k):
     host = "api"
     if not two and loc in ("home", "session") and rng.random() < 0.45:
         host = "repl"          # the real REPL loop is the host
+    files.update(late_files)
     case = {"config": {"instances": insts, "store": store,
                        "share_env": share_env, "host": host,
                        "deep_env": rng.random() < 0.5,
@@ -398,7 +426,10 @@ def gen_case(rng, tier, k):
             if seen:
                 mid = rng.choice(seen)
         form = rng.choice(["plain", "plain", "as", "unq", "imp"])
-        spec = {"id": mid} if rng.random() < 0.8 else {"str": mid}
+        r3 = rng.random()
+        spec = {"id": mid} if r3 < 0.7 else {"str": mid} if r3 < 0.85 \
+            else {"str": rng.choice(["lib/", "a/b/", ""]) + mid +
+                  rng.choice(["", ".ckl"])}
         extra = None
         if form == "as":
             extra = "al_" + rng.choice("pqr")
@@ -519,7 +550,7 @@ def gen_case(rng, tier, k):
                 ["state", "state", "read", "fn", "call", "fail", "multifail",
                  "syntax", "loopabort", "require", "require", "require",
                  "moduse", "moduse", "sentinel", "failstorm", "appear",
-                 "runfile"])
+                 "runfile", "bindnative"])
             if kind == "appear":
                 # a module that was missing appears in the store (or a
                 # present one disappears) between two commands
@@ -620,6 +651,9 @@ def gen_case(rng, tier, k):
             elif kind == "sentinel":
                 stmts.append(["req", "plain", {"id": "zs"}, None])
                 stmts.append(["expr", ["mget", "zs", "val"]])
+            elif kind == "bindnative":
+                stmts.append(["bind", rng.choice(["file_exists", "list_dir",
+                                                  "file_info"])])
             elif kind == "runfile":
                 stmts.append(["runf", f"/sim/scripts/s{rng.randrange(2)}.ckl"])
                 if rng.random() < 0.5:
